@@ -150,7 +150,9 @@ func workerMain(property string, args []string, register func(r *Registry)) int 
 	claimDir := filepath.Dir(out)
 	if len(r.scenarios) < 3*n {
 		for _, sc := range r.scenarios {
-			sc.Shard = true
+			if !sc.NoShard {
+				sc.Shard = true
+			}
 		}
 	}
 	// results are appended per finished scenario (JSON lines), so a later crash of this worker
